@@ -172,3 +172,38 @@ func orderSensitive(e *Engine, fn *ssa.Function, ins ssa.Instruction) string {
 	}
 	return ""
 }
+
+// readDisciplineObs (C15): in the functions that consume the source, every read goes through io.ReadFull / io.ReadAll /
+// io.Copy(N) / Seek, whose results do not depend on how the source fragments its deliveries; a direct Read on an
+// interface value is an obligation that cannot be discharged. A method named Read is itself a reader (a wrapper that
+// forwards fragments unchanged) and is exempt.
+func (f *frame) readDisciplineObs() {
+	e := f.e
+	if f.fn.Name() == "Read" && f.fn.Signature.Recv() != nil {
+		return
+	}
+	tags := []string{"C15"}
+	for _, b := range f.fn.Blocks {
+		pc, reached := f.pcs[b]
+		if !reached || pc == "false" {
+			continue
+		}
+		for _, ins := range b.Instrs {
+			ci, ok := ins.(ssa.CallInstruction)
+			if !ok {
+				continue
+			}
+			c := ci.Common()
+			if c.IsInvoke() && c.Method.Name() == "Read" && sigShape(c.Method.Type().(*types.Signature)) == "1:2" {
+				e.ob(f, "frame:readfull-only", "direct Read on a source: "+e.w.srcText(ins.Pos(), ins), tags, pc, "false", ins.Pos())
+				continue
+			}
+			if callee := c.StaticCallee(); callee != nil {
+				switch calleeName(callee) {
+				case "io.ReadFull", "io.ReadAll", "io.Copy", "io.CopyN", "io.ReadAtLeast":
+					e.obSyntactic(f, "frame:readfull-only", "fragmentation-independent read: "+e.w.srcText(ins.Pos(), ins), tags, ins.Pos())
+				}
+			}
+		}
+	}
+}
